@@ -29,7 +29,7 @@ from .. import paths, lin
 from ..prog import AnalysisIncomplete
 from . import c17
 
-FIXTURES = ["span_fx.c"]
+FIXTURES = ["span_fx.c", "hash_fx.c"]
 
 
 class _Collect:
@@ -894,3 +894,8 @@ def run(ctx):
     emit_rule(ctx, P)
     config_rule(ctx, P)
     status_rule(ctx, P)
+    # a refused dictionary line / word must leave the dictionary as it was: the entry it would have been chained to
+    # is otherwise left pointing at a slot that holds nothing (seed C10-10 crashes the next grammar on it)
+    from . import c16
+    from ..report import Only
+    c16.run(Only(ctx, ("EFFECT.D1-failure-paths",)))
